@@ -177,6 +177,16 @@ FUNCS += [
     dict(id='BufTryFromStr', file='src/pointer.rs', fn='try_from', impl=r"impl TryFrom<&str> for PointerBuf", lean='PointerBuf.try_from_str', params=[('value', 'bytes')], ret='res', rtype='Res ParseError Bytes', imports=['PointerParse'], door=True),
     dict(id='BufFromStr', file='src/pointer.rs', fn='from_str', impl=r"impl FromStr for PointerBuf", lean='PointerBuf.from_str', params=[('s', 'bytes')], ret='res', rtype='Res ParseError Bytes', imports=['BufTryFromStr'], door=True),
 ]
+# the iterators: `&mut self` of an iterator is its state, returned next to the item
+FUNCS += [
+    dict(id='PointerTokens', file='src/pointer.rs', fn='tokens', impl=PTR_IMPL, lean='Pointer.tokens_iter', params=[('self', 'ptrself')], ret='pure', rtype='Split', iter=True),
+    dict(id='TokensNext', file='src/token.rs', fn='next', impl=r"impl<'a> Iterator for Tokens<'a>", lean='Tokens.next', params=[('self', 'iterself:inner=split')],
+         ret='mutiter', rtype='Option Bytes × Split', iter=True),
+    dict(id='ComponentsFrom', file='src/component.rs', fn='from', impl=r"impl<'t> From<&'t Pointer> for Components<'t>", lean='Components.from_pointer',
+         params=[('pointer', 'ptrself')], ret='pure', rtype='Components', imports=['PointerTokens'], iter=True),
+    dict(id='ComponentsNext', file='src/component.rs', fn='next', impl=r"impl<'t> Iterator for Components<'t>", lean='Components.next',
+         params=[('self', 'iterself:sent_root=bool,tokens=tokensiter')], ret='mutiter', rtype='Option Component × Components', imports=['TokensNext'], iter=True),
+]
 PE_IMPL = r"impl ParseError \{"
 FUNCS += [
     dict(id='ParseErrOffset', file='src/pointer.rs', fn='offset', impl=PE_IMPL, lean='ParseError.offset', params=[('self', 'errself:parseerror')], ret='pure', rtype='Nat'),
@@ -202,7 +212,7 @@ SIBLINGS = {'split_back': ('Pointer.split_back', 'opt(tuple:ptrself,tok)'), 'spl
 
 LEANTY = {'nat': 'Nat', 'bool': 'Bool', 'bytes': 'Bytes', 'cow': 'Cow', 'optnat': 'Option Nat', 'toklist': 'List Bytes',
           'tok': 'Bytes', 'index': 'Index', 'bound': 'Bound', 'ptr': 'Bytes', 'span': 'Span', 'tokself': 'Bytes',
-          'intocow': 'Bytes', 'unit': 'Unit', 'ptrself': 'Bytes', 'vref': 'Loc × Val', 'vroot': 'Val', 'bufself': 'Bytes', 'intotoken': 'Bytes', 'asrefptr': 'Bytes', 'docself': 'Val', 'val': 'Val', 'aref': 'Loc × List Val', 'oref': 'Loc × List (Bytes × Val)', 'assigned': 'Assigned', 'intoval': 'Val', 'resolveerr': 'ResolveErr', 'assignerr': 'AssignErr', 'parseerror': 'ParseError', 'bufval': 'Bytes', 'bufref': 'Bytes', 'kvlist': 'List (Bytes × Val)', 'vallist': 'List Val'}
+          'intocow': 'Bytes', 'unit': 'Unit', 'ptrself': 'Bytes', 'vref': 'Loc × Val', 'vroot': 'Val', 'bufself': 'Bytes', 'intotoken': 'Bytes', 'asrefptr': 'Bytes', 'docself': 'Val', 'val': 'Val', 'aref': 'Loc × List Val', 'oref': 'Loc × List (Bytes × Val)', 'assigned': 'Assigned', 'intoval': 'Val', 'resolveerr': 'ResolveErr', 'assignerr': 'AssignErr', 'parseerror': 'ParseError', 'bufval': 'Bytes', 'split': 'Split', 'tokensiter': 'Split', 'component': 'Component', 'components': 'Components', 'bufref': 'Bytes', 'kvlist': 'List (Bytes × Val)', 'vallist': 'List Val'}
 
 # enums the subset may match on / construct: type tag -> [(lean ctor, [rust paths], [field types])]
 ENUMS = {
@@ -223,6 +233,7 @@ UNITCTORS = {
     'ParseIndexError::LeadingZeros': ('ParseIndexError.leadingZeros', 'pie'),
     'InvalidEncoding::Slash': ('EncKind.slash', 'enckind'), 'InvalidEncoding::Tilde': ('EncKind.tilde', 'enckind'),
     'ParseError::NoLeadingSlash': ('ParseError.noLeadingSlash', 'parseerror'),
+    'Component::Root': ('Component.root', 'component'),
 }
 
 PANIC_IDX = '.panic "index out of bounds"'
@@ -587,6 +598,8 @@ class Fn:
                         if i == len(args): return k(f"({tgt[0]} {' '.join(acc)})", tgt[1])
                         return self.E(args[i], env, ctx, lambda a, ta: god2(i + 1, acc + [a]))
                     return god2(0, [])
+            if ps == 'Tokens::new' and len(args) == 1 and self.spec.get('iter'):
+                return self.E(args[0], env, ctx, lambda a, ta: k(a, 'tokensiter') if ta == 'split' else self.bad("Tokens::new(" + ta + ")"))
             if ps == 'Label::new' and len(args) == 3:
                 return self.E(args[1], env, ctx, lambda o, to: self.E(args[2], env, ctx,
                               lambda l, tl: k(f"({o}, {l})", 'label') if (to == 'nat' and tl == 'nat') else self.bad("Label::new(_, " + to + ", " + tl + ")")))
@@ -634,6 +647,15 @@ class Fn:
                 if inner[0] == 'mcall' and inner[2] == 'into' and not inner[3]:
                     inner = inner[1]
                 return self.E(inner, env, ctx, after)
+            if ps == 'Self' and self.spec['id'] == 'ComponentsFrom' and set(fields) == {'sent_root', 'tokens'}:
+                order = [f for f, _ in e[2]]; vals = {}
+                def gos(i):
+                    if i == len(order): return k(f"(Components.mk {vals['sent_root']} {vals['tokens']})", 'components')
+                    def aft_s(a, ta, i=i):
+                        if ta != {'sent_root': 'bool', 'tokens': 'tokensiter'}[order[i]]: raise Unsupported(f"field {order[i]} of type {ta}")
+                        vals[order[i]] = a; return gos(i + 1)
+                    return self.E(fields[order[i]], env, ctx, aft_s)
+                return gos(0)
             if ps == 'EncodingError' and set(fields) == {'offset', 'source'}:
                 return self.E(fields['offset'], env, ctx, lambda o, _: self.E(fields['source'], env, ctx,
                               lambda s, ts: k(f"(EncErr.mk {o} {s})", 'encerr') if ts == 'enckind' else self.bad("EncodingError.source")))
@@ -779,6 +801,16 @@ class Fn:
                     return self.E(parts[i], env, ctx, lambda a, ta: go(i + 1, acc + [a]))
                 return go(0, [])
             return self.E(recv, env, ctx, after)
+        if self.spec.get('iter') and name == 'next' and not args:
+            place = None
+            if recv[0] == 'path' and len(recv[1]) == 1 and env.get(recv[1][0]) in ('split', 'tokensiter'): place = (recv[1][0], env[recv[1][0]])
+            if recv[0] == 'field' and recv[1] == ('path', ['self']) and ('self.' + recv[2]) in env:
+                term, ty = _alias_parts(env['self.' + recv[2]])
+                if ty in ('split', 'tokensiter'): place = (term, ty)
+            if place is None: raise Unsupported("next() on something that is not an iterator place")
+            fn = 'Split.next' if place[1] == 'split' else 'Tokens.next'
+            it = self.fresh('it')
+            return paren(f"match ({fn} {place[0]}) with\n| ({it}, {place[0]}) =>\n{ind(k(it, 'opt(tok)'))}")
         def after(r, tr):
             if name == 'len' and not args:
                 if tr in BYTESLIKE: return k(f"{r}.length", 'nat')
@@ -817,6 +849,10 @@ class Fn:
                 return self.E(args[0], env, ctx, aft_cmp)
             if tr == 'intotoken' and name == 'into' and not args: return k(r, 'tok')
             if tr == 'ptrself' and name == 'to_buf' and not args: return k(r, 'bufval')
+            if self.spec.get('iter') and tr == 'ptrself' and name == 'tokens' and not args: return k(f"(Pointer.tokens_iter {r})", 'tokensiter')
+            if self.spec.get('iter') and tr in BYTESLIKE and name == 'split' and len(args) == 1 and args[0] == ('char', '/'): return k(f"(Split.mk (some {r}))", 'split')
+            if self.spec.get('iter') and is_opt(tr) and name == 'map' and len(args) == 1 and args[0] == ('path', ['Component', 'Token']):
+                return k(f"(Option.map Component.token {r})", 'opt(component)')
             if tr == 'asrefptr' and name == 'as_ref' and not args: return k(r, 'ptrself')
             if tr == 'tok' and name == 'to_string' and not args: return k(f"(Token.toString {r})", 'bytes')     # Display = decoded
             if tr in BYTESLIKE and name in ('to_string', 'to_owned', 'clone') and not args: return k(r, 'bytes')
@@ -1291,6 +1327,8 @@ class Fn:
             return self.E(init, env, ctx, after_le)
         if kind == 'assign':
             lhs, op, rhs = st[1], st[2], st[3]
+            if lhs[0] == 'field' and lhs[1] == ('path', ['self']) and self.spec.get('iter') and ('self.' + lhs[2]) in env:
+                lhs = ('path', [_alias_parts(env['self.' + lhs[2]])[0]])
             if lhs[0] == 'field' and lhs[1] == ('path', ['self']) and lhs[2] == '0' and env.get('self_0') == 'bytes':
                 lhs = ('path', ['self_0'])
             if lhs[0] == 'index' and lhs[1][0] == 'path' and len(lhs[1][1]) == 1 and env.get(lhs[1][1][0]) == 'toklist' and op == '=':
@@ -1365,6 +1403,8 @@ class Fn:
                 elif ta not in ('tok', 'intotoken'): raise Unsupported(e[2] + "(" + ta + ")")
                 return f"let {v} := (PointerBuf.{e[2]} {v} {a})\n{rest(env)}"
             return self.E(e[3][0], env, ctx, aft_buf)
+        if t == 'mcall' and e[2] == 'next' and not e[3] and self.spec.get('iter'):
+            return self.E(e, env, ctx, lambda a, ta: rest(env))
         if t == 'dbgassert':
             # checked in test and debug builds: a failing condition is a panic
             if not (self.retkind in ('res',) or (self.retkind == 'mutdoc' and self.spec.get('docres') != 'plain')):
@@ -1525,6 +1565,14 @@ class Fn:
                 if ta == 'opt(val)': return ctx.ret(f".ok {a}")
                 raise Unsupported("returned " + ta)
             return self.E(e, env, ctx, after_md)
+        if rk == 'mutiter':
+            want = 'opt(tok)' if self.spec['id'] == 'TokensNext' else 'opt(component)'
+            def aft_it(a, ta):
+                if ta == 'optnat' and a == 'none': ta = want
+                if ta == 'opt(bytes)' and want == 'opt(tok)': ta = want
+                if ta != want: raise Unsupported("returning " + ta)
+                return ctx.ret(a)
+            return self.E(e, env, ctx, aft_it)
         if rk == 'mutself':
             if t == 'mcall' and e[2] == 'then' and len(e[3]) == 1 and e[3][0][0] == 'closure' and not e[3][0][1]:
                 # `cond.then(|| { … })` as the returned value: `if cond { Some({ … }) } else { None }`
@@ -1726,6 +1774,10 @@ class Fn:
             elif rep == 'docself':
                 # `&mut self` of a document: the mutable variable `self_doc`; every exit returns it with the result
                 lparams.append(('self_doc', 'val')); env['self_doc'] = 'val'; env['self'] = 'alias:self_doc:docref'
+            elif rep.startswith('iterself:'):
+                for fd in rep.split(':', 1)[1].split(','):
+                    fn_, ft_ = fd.split('=')
+                    lparams.append((f"self_{fn_}", ft_)); env[f"self_{fn_}"] = ft_; env[f"self.{fn_}"] = f"alias:self_{fn_}:{ft_}"
             elif rep.startswith('errself:'):
                 lparams.append(('self', rep.split(':')[1])); env['self'] = rep.split(':')[1]
             elif rep in ('vrefmut', 'arefmut', 'orefmut'):
@@ -1743,6 +1795,13 @@ class Fn:
         ctx = Ctx(lambda t: t)
         if self.retkind == 'mutdoc':
             ctx = Ctx(lambda t: f"(self_doc, {t})", raw=lambda r: r)
+            code = self.S(self.norm_stmt_block(self.to_return(self.block)), env, ctx, lambda env2: self.bad("function body falls off its end"))
+            ps = ''.join(f" ({n} : {LEANTY[t]})" for n, t in lparams)
+            return '\n\n'.join(self.loops + [f"def {spec['lean']}{ps} : {self.rtype} :=\n{ind(code)}"])
+        if self.retkind == 'mutiter':
+            names = [n for n, _ in lparams if n.startswith('self_')]
+            state = names[0] if len(names) == 1 else '(Components.mk ' + ' '.join(names) + ')'
+            ctx = Ctx(lambda t: f"({t}, {state})")
             code = self.S(self.norm_stmt_block(self.to_return(self.block)), env, ctx, lambda env2: self.bad("function body falls off its end"))
             ps = ''.join(f" ({n} : {LEANTY[t]})" for n, t in lparams)
             return '\n\n'.join(self.loops + [f"def {spec['lean']}{ps} : {self.rtype} :=\n{ind(code)}"])
